@@ -174,7 +174,7 @@ SPECS['C06'] = {
     'quick': [J('c06a', 'asan', srcs=TLSSRC, libs=PBWRAP, deadline=150), J('c06a', 'msan', srcs=TLSSRC, libs=PBWRAP, deadline=150),
               J('c06b', 'fast', srcs=TLSSRC, libs=GCMWRAP, deadline=150, env={'C06B_STEP': '3', 'C06B_DENSE': '160', 'C06B_SUBS': '0x1ff'}),
               J('c06b', 'asan', srcs=TLSSRC, libs=GCMWRAP, deadline=150, env={'C06B_STEP': '32', 'C06B_DENSE': '96', 'C06B_SUBS': '0xc9'}),
-              J('c06b', 'msan', srcs=TLSSRC, libs=GCMWRAP2, deadline=150, env={'C06B_STEP': '64', 'C06B_DENSE': '64', 'C06B_SUBS': '0xc1'})],
+              J('c06b', 'msan', srcs=TLSSRC, libs=GCMWRAP2, deadline=150, env={'C06B_STEP': '64', 'C06B_DENSE': '160', 'C06B_SUBS': '0x81'})],
     'thorough': [J('c06a', 'asan', srcs=TLSSRC, libs=PBWRAP, deadline=1500), J('c06a', 'msan', srcs=TLSSRC, libs=PBWRAP, deadline=1500),
               J('c06b', 'fast', srcs=TLSSRC, libs=GCMWRAP, deadline=1500, env={'C06B_STEP': '1', 'C06B_DENSE': '160', 'C06B_SUBS': '0x1ff'}),
               J('c06b', 'asan', srcs=TLSSRC, libs=GCMWRAP, deadline=1500, env={'C06B_STEP': '2', 'C06B_DENSE': '160', 'C06B_SUBS': '0x1ff'}),
